@@ -257,6 +257,8 @@ type stimer struct {
 	cm     *chanModel
 	active bool
 	fnTask *stask
+	period int64 // ticker: re-armed after every tick
+	ticks  int
 }
 
 // PanicInfo describes a panic recovered at a task root.
@@ -1362,6 +1364,9 @@ func (s *Sim) register(t *stask, r *request) resume {
 	case regTimerNew:
 		s.ntimer++
 		tm := &stimer{id: s.ntimer, when: s.now + r.n, ch: r.tch, active: true}
+		if r.sub == 1 {
+			tm.period = r.n
+		}
 		s.tseq++
 		tm.seq = s.tseq
 		if r.tch != nil {
@@ -1385,6 +1390,9 @@ func (s *Sim) register(t *stask, r *request) resume {
 					tm.active = false
 				} else {
 					tm.active = true
+					if tm.period > 0 {
+						tm.period = r.n
+					}
 					tm.when = s.now + r.n
 					s.tseq++
 					tm.seq = s.tseq
@@ -1440,6 +1448,19 @@ func (s *Sim) advanceClock() bool {
 		s.now = best.when
 	}
 	best.active = false
+	if best.period > 0 {
+		// a ticker ticks for as long as somebody can be interested, but a run is finite:
+		// after 256 ticks it falls silent (counted), like a ticker that was stopped
+		best.ticks++
+		if best.ticks < 256 {
+			best.active = true
+			best.when += best.period
+			s.tseq++
+			best.seq = s.tseq
+		} else {
+			s.count("probe.ticker_silenced_after_256_ticks", 1)
+		}
+	}
 	s.mix(0x7, uint64(s.now), uint64(best.id))
 	s.count("fault.timer_fire", 1)
 	s.trace("clock -> %dns, timer %d fires", s.now, best.id)
@@ -1811,6 +1832,14 @@ func PoolPut(obj unsafe.Pointer, item any) bool {
 func TimerNew(_ unsafe.Pointer, ch chan time.Time, d time.Duration) int {
 	t := current()
 	r := t.call(request{kind: regTimerNew, obj: chanKey(ch), tch: ch, n: int64(d)})
+	return r.idx
+}
+
+// TickerNew arms a virtual ticker that sends on ch (capacity 1) every d; a tick
+// that finds the channel full is dropped, as in the runtime.
+func TickerNew(ch chan time.Time, d time.Duration) int {
+	t := current()
+	r := t.call(request{kind: regTimerNew, obj: chanKey(ch), tch: ch, n: int64(d), sub: 1})
 	return r.idx
 }
 
